@@ -41,6 +41,8 @@ def run(ctx, rep):
         r4(prog, ev, rep, helper)
         r6(prog, ev, rep, helper, eq_fn)
     r5(prog, ev, rep)
+    if helper:
+        r7(prog, ev, rep, helper)
 
 
 # ------------------------------------------------------------------------------------------- roles
@@ -561,6 +563,20 @@ def comparables_never_refs(prog, ev):
     r = Report("tmp")
     r5(prog, ev, r)
     return all(i["status"] == "ok" for i in r.instances)
+
+
+# ------------------------------------------------------------------------------------------- R7
+def r7(prog, ev, rep, helper):
+    rep.rule("C04-R7", "value equality reads operands only through as_* views (and T: PartialEq): it never looks members up with "
+             "Queryable::get, whose contract is a *selector-text* lookup that strips enclosing quotes from the key", floor=1)
+    conc = prog.concrete_view_bodies()
+    reach, foreign = prog.reach([helper], stop=lambda p: p in conc)
+    gets = foreign.get(QT + "::get", [])
+    for body, node in gets:
+        rep.bad("C04-R7", "%s|Queryable::get" % shared.rk(prog, ev, prog.owner_fn(body)), T.loc(node),
+                "value equality looks a member up with Queryable::get(key): get() strips enclosing quotes from its key (selector text), so "
+                "objects whose member names are themselves quoted (`'a'` vs `a`) compare wrongly and asymmetrically")
+    rep.ok("C04-R7", "census", "-", "%d bodies reachable from the value-equality helper, %d Queryable::get call(s)" % (len(reach), len(gets)))
 
 
 # ------------------------------------------------------------------------------------------- R6
